@@ -85,6 +85,19 @@ def r_recover_domain(rep, prog):
                   "frames(): out of bounds whenever the last tree holds fewer than TREE_HUGE huge frames" % T.show(sel), t["span"])
 
 
+def _is_start_of(prog, lhs, sels):
+    """lhs is the first frame of the huge frame one of the bitfield selectors names (arithmetic form)"""
+    hf = prog.crate("llfree").const("llfree::HUGE_FRAMES")
+    ll = lib.index_lin(prog, lhs)
+    if ll is None:
+        return False
+    for sel in sels:
+        ls = lib.index_lin(prog, sel)
+        if ls is not None and T._lin_scale(ls, hf) == ll:
+            return True
+    return False
+
+
 def r_recover_complete(rep, prog):
     """Completeness half of the bound: the early exit may only drop table entries whose huge frame starts outside the
     managed range. A tighter bound (e.g. frames() / LEN, the number of *fully* backed huge frames) silently leaves the
@@ -127,6 +140,8 @@ def r_recover_complete(rep, prog):
             why = ""
             if rel == "lt" and cr == ("call", "llfree::lower::Lower::frames", (("p", "self"),)) and cl in frames_of:
                 exact, why = True, "start.0 < frames()"
+            elif rel == "lt" and cr == ("call", "llfree::lower::Lower::frames", (("p", "self"),)) and _is_start_of(prog, lhs, sels):
+                exact, why = True, "start.0 < frames() (start = HUGE_FRAMES * selector)"
             elif rel == "lt" and any(cl == ("f", sc, 0) for sc in sel_canon) and cr[0] == "call" and cr[1] == "slice::len" and any(
                     y[0] == "f" and y[3] == "bitfields" for y in T.walk(rhs)):
                 exact, why = True, "start.as_huge().0 < bitfields.len()"
@@ -181,6 +196,15 @@ def r_recover_flow(rep, prog):
             i_want = T.canon(("f", ("f", ("as", outer[0], "Some"), 0, None), 0, None)) if outer else None
             over_children = outer and any(y[0] == "f" and y[3] == "children" for y in T.walk(outer[0][2][0]))
             good = j == j_want and i == i_want and bool(over_children)
+        if not good and inner_next is not None:
+            # arithmetic form: selector = TREE_HUGE * i + j for the outer / inner enumerate indices of the entry
+            outer = [x for x in T.walk(inner_next[2][0]) if x[0] == "call" and x[1].endswith("::next")]
+            if outer and any(y[0] == "f" and y[3] == "children" for y in T.walk(outer[0][2][0])):
+                th = prog.crate("llfree").const("llfree::TREE_HUGE")
+                lj = lib.index_lin(prog, ("f", ("f", ("as", inner_next, "Some"), 0, None), 0, None))
+                li = lib.index_lin(prog, ("f", ("f", ("as", outer[0], "Some"), 0, None), 0, None))
+                lsel = lib.index_lin(prog, sel)
+                good = None not in (lj, li, lsel) and T._lin_add(T._lin_scale(li, th), lj, 1) == lsel
             lin = T.linear(T.strip_refs(sel)[2][0][2][0]) if False else None
         rep.check(good, rule, "recover|selector-of-entry", "selector = huge frame (i, j) of the entry being repaired",
                   "the bitfield selector is not derived from the entry's own table index i and entry index j: " + detail, sels[0][1]["span"])
